@@ -419,3 +419,281 @@ Definition oracle_C12 (sc : scase) (log : list ev) : bool :=
             end))
       end
   end.
+
+Fixpoint list_z_eqb (a b : list Z) : bool :=
+  match a, b with
+  | [], [] => true
+  | x :: a', y :: b' => (x =? y) && list_z_eqb a' b'
+  | _, _ => false
+  end.
+
+(* ---------- C07 / C08: names, parameters and formats (abstract namespace) ---------- *)
+Record sdef := { sd_sid : Z; sd_cols : list column; sd_poids : list Z }.
+Record pdef := { pd_stmt : sdef; pd_pf : list Z; pd_vals : list (option bytes); pd_rf : list Z }.
+
+(* the abstract namespace: partial functions from names *)
+Record nspace := { ns_stmt : bytes -> option sdef; ns_portal : bytes -> option pdef; ns_ok : bool; ns_why : Z }.
+Definition ns0 : nspace := {| ns_stmt := fun _ => None; ns_portal := fun _ => None; ns_ok := true; ns_why := 0 |}.
+Definition upd {A} (f : bytes -> option A) (k : bytes) (v : option A) : bytes -> option A :=
+  fun x => if bytes_eqb x k then v else f x.
+Definition ns_fail (n : nspace) (why : Z) : nspace :=
+  {| ns_stmt := ns_stmt n; ns_portal := ns_portal n; ns_ok := false; ns_why := (if ns_ok n then why else ns_why n) |}.
+Definition ns_check (n : nspace) (b : bool) (why : Z) : nspace := if b then n else ns_fail n why.
+
+(* the protocol's rule for one format code out of a list, for item i of n *)
+Definition rule_fmt (codes : list Z) (n : nat) (i : nat) : option Z :=
+  match codes with
+  | [] => Some 0
+  | [f] => Some f
+  | _ => if Nat.eqb (List.length codes) n then nth_error codes i else None   (* other counts: not constrained *)
+  end.
+
+Fixpoint params_ok (pf : list Z) (n : nat) (i : nat) (sent : list (option bytes)) (got : list (Z * option bytes)) : bool :=
+  match sent, got with
+  | [], [] => true
+  | v :: sr, (f, w) :: gr =>
+      (match v, w with
+       | None, None => true
+       | Some a, Some b => bytes_eqb a b
+       | _, _ => false
+       end) &&
+      (match rule_fmt pf n i with Some e => f =? e | None => true end) &&
+      params_ok pf n (S i) sr gr
+  | _, _ => false
+  end.
+
+Fixpoint rowdesc_fmts_ok (rf : list Z) (n : nat) (i : nat) (cols : list coldesc) : bool :=
+  match cols with
+  | [] => true
+  | c :: r => (match rule_fmt rf n i with Some e => cd_fmt c =? e mod 65536 | None => true end) &&
+              rowdesc_fmts_ok rf n (S i) r
+  end.
+
+Fixpoint list_names_ok (cols : list column) (cds : list coldesc) : bool :=
+  match cols, cds with
+  | [], [] => true
+  | c :: cr, d :: dr => bytes_eqb (c_name c) (cd_name d) && (cd_oid d =? c_oid c mod 4294967296) && list_names_ok cr dr
+  | _, _ => false
+  end.
+
+Definition describe_ok (d : sdef) (rf : list Z) (m : bmsg) : bool :=
+  match sd_cols d, m with
+  | [], BNoData => true
+  | _ :: _, BRowDesc cds =>
+      (lenZ cds =? lenZ (sd_cols d)) &&
+      list_names_ok (sd_cols d) cds && rowdesc_fmts_ok rf (List.length cds) 0 cds
+  | _, _ => false
+  end.
+
+Definition execs (evs : list ev) : list (Z * list (Z * option bytes)) :=
+  flat_map (fun e => match e with CbExec sid ps => [(sid, ps)] | _ => [] end) evs.
+
+(* one client message and the events it caused, against the abstract namespace *)
+Definition ns_step (sc : scase) (n : nspace) (f : frame) (evs0 : list ev) : nspace :=
+  let evs := filter (fun e => negb (is_closed_ev e)) evs0 in
+  if negb (ns_ok n) then n else
+  match evs, f with
+  | [], _ => n                                   (* discarded / no reply: judged by the turn discipline *)
+  | _, FMsg t body =>
+      let ms := outs evs in
+      if negb (wf_client f) then n
+      else if Byte.eqb t x50 then                (* Parse *)
+        match take_cstr body with
+        | Some (name, l1) =>
+            match take_cstr l1 with
+            | Some (q, _) =>
+                match ms with
+                | [BParseComplete] =>
+                    match lookup_parse (sc_parse sc) q with
+                    | POk [s] =>
+                        {| ns_stmt := upd (ns_stmt n) name (Some {| sd_sid := s_id s; sd_cols := s_cols s; sd_poids := s_poids s |});
+                           ns_portal := ns_portal n; ns_ok := true; ns_why := 0 |}
+                    | _ => ns_fail n 201          (* ParseComplete although the parser did not yield one statement *)
+                    end
+                | _ => n
+                end
+            | None => n end
+        | None => n end
+      else if Byte.eqb t x42 then                (* Bind *)
+        match decode_bind_raw body with
+        | Some b =>
+            match ns_stmt n (br_stmt b), ms with
+            | Some d, [BBindComplete] =>
+                {| ns_stmt := ns_stmt n;
+                   ns_portal := upd (ns_portal n) (br_portal b)
+                                    (Some {| pd_stmt := d; pd_pf := br_pf b; pd_vals := br_vals b; pd_rf := br_rf b |});
+                   ns_ok := true; ns_why := 0 |}
+            | Some _, _ => ns_fail n 202          (* Bind of a defined statement must succeed *)
+            | None, [BError _] => n
+            | None, _ => ns_fail n 203            (* unknown statement must be an ErrorResponse *)
+            end
+        | None => n end
+      else if Byte.eqb t x44 then                (* Describe *)
+        match body with
+        | k :: l1 =>
+            match take_cstr l1 with
+            | Some (name, _) =>
+                if Byte.eqb k x53 then
+                  match ns_stmt n name, ms with
+                  | Some d, [BParamDesc oids; m2] =>
+                      ns_check n (list_z_eqb oids (map (fun o => o mod 4294967296) (sd_poids d)) && describe_ok d [] m2) 204
+                  | Some _, _ => ns_fail n 205
+                  | None, [BError _] => n
+                  | None, _ => ns_fail n 206
+                  end
+                else if Byte.eqb k x50 then
+                  match ns_portal n name, ms with
+                  | Some p, [m1] => ns_check n (describe_ok (pd_stmt p) (pd_rf p) m1) 207
+                  | Some _, _ => ns_fail n 208
+                  | None, [BError _] => n
+                  | None, _ => ns_fail n 209
+                  end
+                else n
+            | None => n end
+        | [] => n end
+      else if Byte.eqb t x45 then                (* Execute *)
+        match take_cstr body with
+        | Some (name, _) =>
+            match ns_portal n name, execs evs with
+            | Some p, [(sid, got)] =>
+                ns_check n ((sid =? sd_sid (pd_stmt p)) &&
+                            params_ok (pd_pf p) (List.length (pd_vals p)) 0 (pd_vals p) got) 210
+            | Some _, _ => ns_fail n 211          (* the bound statement must run exactly once *)
+            | None, [] => ns_check n (shape_one is_error ms) 212
+            | None, _ => ns_fail n 213            (* nothing may run for an unknown portal *)
+            end
+        | None => n end
+      else if Byte.eqb t x43 then                (* Close *)
+        match body with
+        | k :: l1 =>
+            match take_cstr l1, ms with
+            | Some (name, _), [BCloseComplete] =>
+                if Byte.eqb k x53 then
+                  {| ns_stmt := upd (ns_stmt n) name None; ns_portal := ns_portal n; ns_ok := true; ns_why := 0 |}
+                else if Byte.eqb k x50 then
+                  {| ns_stmt := ns_stmt n; ns_portal := upd (ns_portal n) name None; ns_ok := true; ns_why := 0 |}
+                else ns_fail n 214
+            | _, _ => n
+            end
+        | [] => n end
+      else n
+  | _, _ => n
+  end.
+
+Fixpoint ns_fold (sc : scase) (n : nspace) (fs : list frame) (ts : list (list ev)) : nspace :=
+  match fs, ts with
+  | f :: fr, t :: tr => ns_fold sc (ns_step sc n f t) fr tr
+  | _, _ => n
+  end.
+
+Definition names_verdict (sc : scase) (log : list ev) : nspace :=
+  match turns log with
+  | _ :: ts => ns_fold sc ns0 (client_frames sc) ts
+  | [] => ns0
+  end.
+
+(* C07 and C08 share the abstract namespace: which statement runs, with which
+   parameters, tagged by which format, described with which result formats *)
+Definition oracle_names (sc : scase) (log : list ev) : bool :=
+  oracle_turns sc log && ns_ok (names_verdict sc log).
+
+(* ---------- C13: COPY-in ---------- *)
+Definition opres_evs (evs : list ev) : list opres :=
+  flat_map (fun e => match e with CbOp r => [r] | _ => [] end) evs.
+
+Definition copy_turn_ok (f : frame) (evs0 : list ev) : bool :=
+  let evs := filter (fun e => negb (is_closed_ev e)) evs0 in
+  let ms := outs evs in
+  (count is_error ms <=? 1) && (count is_ready ms <=? 1) &&
+  (match rev ms with z :: _ => if existsb is_ready ms then is_ready z else true | [] => true end) &&
+  match f with
+  | FMsg t body =>
+      let datas := flat_map (fun r => match r with OData b => [b] | _ => [] end) (opres_evs evs) in
+      (* a payload handed to the handler is the payload of this very CopyData message *)
+      (if Byte.eqb t x64 then all_b (fun b => bytes_eqb b body) datas && (lenZ datas <=? 1)
+       else match datas with [] => true | _ => false end) &&
+      (* CopyFail / foreign messages never surface as success or end-of-stream *)
+      (if Byte.eqb t x66 then
+         all_b (fun r => match r with OEof | OData _ => false | _ => true end)
+               (match opres_evs evs with r :: _ => [r] | [] => [] end)
+       else true)
+  | _ => true
+  end.
+
+Fixpoint copy_turns_ok (fs : list frame) (ts : list (list ev)) : bool :=
+  match fs, ts with
+  | f :: fr, t :: tr => copy_turn_ok f t && copy_turns_ok fr tr
+  | _, _ => true
+  end.
+
+(* data arrives in order: the sequence of payloads seen by handlers is a
+   subsequence-in-order of the CopyData payloads sent *)
+Fixpoint in_order (seen sent : list bytes) : bool :=
+  match seen with
+  | [] => true
+  | x :: sr =>
+      (fix find (l : list bytes) : bool :=
+         match l with
+         | [] => false
+         | y :: lr => if bytes_eqb x y then in_order sr lr else find lr
+         end) sent
+  end.
+
+Definition oracle_C13 (sc : scase) (log : list ev) : bool :=
+  no_crash log &&
+  match turns log with
+  | _ :: ts =>
+      copy_turns_ok (client_frames sc) ts &&
+      in_order (flat_map (fun r => match r with OData b => [b] | _ => [] end) (opres_evs log))
+               (flat_map (fun f => match f with FMsg t b => if Byte.eqb t x64 then [b] else [] | _ => [] end)
+                         (client_frames sc))
+  | [] => true
+  end.
+
+(* ---------- C19: session lifecycle ---------- *)
+Fixpoint mw_seq (l : list ev) (i : Z) : bool :=
+  match l with
+  | [] => true
+  | CbMw j :: r => (j =? i) && mw_seq r (i + 1)
+  | _ :: r => mw_seq r i
+  end.
+
+Definition first_fail (mws : list bool) : option Z :=
+  (fix go (l : list bool) (i : Z) : option Z :=
+     match l with [] => None | ok :: r => if ok then go r (i + 1) else Some i end) mws 0.
+
+Definition oracle_C19 (sc : scase) (log : list ev) : bool :=
+  no_crash log &&
+  let mws := filter (fun e => match e with CbMw _ => true | _ => false end) log in
+  (* registration order, each at most once *)
+  mw_seq log 0 &&
+  (* middlewares run after authentication + parameters and before the first ReadyForQuery / command *)
+  (let (pre, post) := (fix cut (l : list ev) : list ev * list ev :=
+                         match l with
+                         | [] => ([], [])
+                         | e :: r => match e with
+                                     | CbMw _ => ([], l)
+                                     | _ => let (a, b) := cut r in (e :: a, b)
+                                     end
+                         end) log in
+   (match post with
+    | [] => true
+    | _ => negb (existsb (fun e => match e with Out (BReady _) | CbParse _ | CbExec _ _ => true | _ => false end) pre) &&
+           existsb (fun e => match e with Out (BAuth c) => c =? 0 | _ => false end) pre
+    end)) &&
+  (* all of them ran before anything is served; a failing one ends the connection *)
+  (let served := existsb (fun e => match e with Out (BReady _) | CbParse _ | CbExec _ _ => true | _ => false end) log in
+   match first_fail (sc_mws sc) with
+   | Some j => negb served && (if existsb (fun e => match e with CbMw _ => true | _ => false end) log
+                               then (lenZ mws =? j + 1) && ends_closed log else true)
+   | None => if served then lenZ mws =? lenZ (sc_mws sc) else true
+   end) &&
+  (* Terminate: the hook runs at most once and nothing happens afterwards *)
+  (count (fun e => match e with CbTerminate => true | _ => false end) log <=? 1) &&
+  (let after := (fix drop (l : list ev) : list ev :=
+                   match l with [] => [] | CbTerminate :: r => r | _ :: r => drop r end) log in
+   all_b (fun e => match e with Closed | Consume => true | _ => false end) after) &&
+  (match sc_term sc with
+   | None => negb (existsb (fun e => match e with CbTerminate => true | _ => false end) log)
+   | Some _ => true
+   end).
